@@ -28,6 +28,7 @@ THEOREMS = [
     'Pyiga.Props.C14.glue_spec_partial',
     'Pyiga.Props.C14.asCoded_eq_repaired_of_noMeet',
     'Pyiga.Props.C14.glue_spec_asCoded_false',
+    'Pyiga.Props.C14.flip_pairs',
     'Pyiga.Props.C14.p2g_matrix_column',
     'Pyiga.Props.C14.p2g_matrix_orthonormal',
     'Pyiga.Props.C14.assemble_accumulate',
@@ -507,7 +508,9 @@ def run(ctx):
     # assemble_system accumulation with integer patch matrices (assemble() replaced by a table lookup)
     nasm = 120 if ctx.tier == 'quick' else 1500
     areq, aimpl, ameta = [], [], []
-    cand = [k for k in agree if 'fin err' not in impl[k] and 'err-IndexError' not in impl[k].split('| fin')[-1]]
+    # (the model's matrices are entry functions: keep the dense X A X^T evaluation small)
+    cand = [k for k in agree if 'fin err' not in impl[k] and 'err-IndexError' not in impl[k].split('| fin')[-1]
+            and sum(int(np.prod(sh)) for sh in H[k][1]) <= 60]
     orig = assemble.assemble
     try:
         for k in orng.permutation(len(cand))[:nasm]:
